@@ -196,7 +196,18 @@ class Session:
             kw["flush_on_insert"] = False
         if access_mode or cfg.get("access_mode"):
             kw["access_mode"] = access_mode or cfg["access_mode"]
-        return TinyFlux(self.path, auto_index=cfg["auto_index"], **kw)
+        # the documented forms of the path argument, rotated by database directory number (deterministic per run)
+        form = sum(ord(c) for c in os.path.basename(os.path.dirname(self.path))) % 4
+        path = self.path
+        if form == 2:
+            import pathlib
+
+            path = pathlib.Path(self.path)
+        elif form == 3:
+            kw["create_dirs"] = True
+        elif form == 1:
+            path = os.path.relpath(self.path)  # relative to the working directory (which no check changes)
+        return TinyFlux(path, auto_index=cfg["auto_index"], **kw)
 
     def close(self):
         try:
